@@ -419,6 +419,10 @@ func scenario() {
 	if tag == "c08" {
 		modeOn = rnd.Chance(95)
 	}
+	if tag == "c05" {
+		// the exported upload.Run is exercised in mode local only (no config download there)
+		modeOn = rnd.Chance(55) || datedDir
+	}
 	forced := sc.directed != "" || sc.small
 	if forced {
 		modeOn = true
@@ -602,7 +606,11 @@ func scenario() {
 		out.Note("pre-stray-ready")
 	}
 	staleLock := ""
-	if rnd.Chance(5) && !sc.eventual && !forced {
+	lockChance := 5
+	if tag == "c05" {
+		lockChance = 20
+	}
+	if rnd.Chance(lockChance) && !sc.eventual && !forced {
 		staleLock = wkR()
 		os.MkdirAll(w.up, 0777)
 		os.WriteFile(filepath.Join(w.up, staleLock+".json.lock"), nil, 0666)
